@@ -153,7 +153,7 @@ type workerOut struct {
 	fail    string
 }
 
-const maxBadPerBucket = 48
+const maxBadPerBucket = 12
 
 func runWorker(w, workers int, sel []Kind, seed uint64, tier string, scale float64, model string) *workerOut {
 	out := &workerOut{
@@ -182,7 +182,7 @@ func runWorker(w, workers int, sel []Kind, seed uint64, tier string, scale float
 		defer wg.Done()
 		sc := bufio.NewScanner(stdout)
 		sc.Buffer(make([]byte, 1<<20), 1<<28)
-		var bucket [4]int
+		bucket := map[string]*[4]int{}
 		for sc.Scan() {
 			line := sc.Text()
 			if strings.HasPrefix(line, "# ") {
@@ -203,8 +203,15 @@ func runWorker(w, workers int, sel []Kind, seed uint64, tier string, scale float
 			case strings.Contains(verdict, "corr=neq"):
 				prio = 1
 			}
-			if bucket[prio] < maxBadPerBucket {
-				bucket[prio]++
+			kindOf := orig
+			if i := strings.IndexByte(orig, ' '); i >= 0 {
+				kindOf = orig[:i]
+			}
+			if bucket[kindOf] == nil {
+				bucket[kindOf] = &[4]int{}
+			}
+			if bucket[kindOf][prio] < maxBadPerBucket {
+				bucket[kindOf][prio]++
 				bc := badCase{Prio: prio, Verdict: verdict, Line: orig, Index: -1}
 				f := strings.SplitN(orig, " ", 3)
 				if len(f) >= 2 {
@@ -423,8 +430,8 @@ func cmdRun(args []string) {
 		}
 		return len(res.Bad[i].Line) < len(res.Bad[j].Line)
 	})
-	if len(res.Bad) > 300 {
-		res.Bad = res.Bad[:300]
+	if len(res.Bad) > 2000 {
+		res.Bad = res.Bad[:2000]
 	}
 	res.WallS = time.Since(t0).Seconds()
 	js, _ := json.MarshalIndent(res, "", " ")
